@@ -2,6 +2,7 @@ package sio
 
 import (
 	"context"
+	"encoding/json"
 	"fmt"
 	"sort"
 	"strings"
@@ -28,14 +29,31 @@ if (n > 0) {
   else if (mode == "unrouted") { _.out({trail: t + "u", n: n - 1}); }
   else if (mode == "two") { _.out({to: target, trail: t + "1", n: n - 1}); _.out({trail: t + "2", n: n - 1}); }
   else if (mode == "list") { _.out({to: [target, id, target], trail: t + "l", n: n - 1}); }
+  else if (mode == "spawn") {
+    // create machine "x" (a plain recorder) through the captain, then greet it - both within this cascade
+    if (!_.bindings.spawned) { _.out({to: "captain", update: {x: {spec: {inline: SPEC}, state: {node: "start", bs: {mode: "none"}}}}}); }
+    _.out({to: "x", trail: t + "x", n: n - 1});
+  }
 }
+if (mode == "spawn") { return {log: log, mode: mode, target: target, spawned: true}; }
 return {log: log, mode: mode, target: target};
 `
+
+func recorderSource() string {
+	// the recorder's own spec as a JSON literal inside its script (for the spawn mode)
+	inner := &core.Spec{Name: "recorder", Nodes: map[string]*core.Node{
+		"start": {Branches: &core.Branches{Type: "message", Branches: []*core.Branch{{Pattern: "?m", Target: "rec"}}}},
+		"rec": {ActionSource: &core.ActionSource{Interpreter: "ecmascript", Source: strings.Replace(recorderJS, "SPEC", "null", -1)},
+			Branches: &core.Branches{Branches: []*core.Branch{{Target: "start"}}}},
+	}}
+	js, _ := json.Marshal(inner)
+	return strings.Replace(recorderJS, "SPEC", string(js), -1)
+}
 
 func recorderSpec() *core.Spec {
 	return &core.Spec{Name: "recorder", Nodes: map[string]*core.Node{
 		"start": {Branches: &core.Branches{Type: "message", Branches: []*core.Branch{{Pattern: "?m", Target: "rec"}}}},
-		"rec": {ActionSource: &core.ActionSource{Interpreter: "ecmascript", Source: recorderJS},
+		"rec": {ActionSource: &core.ActionSource{Interpreter: "ecmascript", Source: recorderSource()},
 			Branches: &core.Branches{Branches: []*core.Branch{{Target: "start"}}}},
 	}}
 }
@@ -98,9 +116,19 @@ func refRoute(cs c14Case) (logs map[string][]string, emitted []string) {
 		first.to, first.hasTo = cs.To, true
 	}
 	queue := []refMsg{first}
+	spawned := map[string]bool{}
 	for len(queue) > 0 {
 		m := queue[0]
 		queue = queue[1:]
+		if m.trail == "<create-x>" {
+			// the captain creates x when this message's turn comes
+			if _, have := byId["x"]; !have {
+				byId["x"] = recMachine{Id: "x", Mode: "none"}
+				ids = append(ids, "x")
+				sort.Strings(ids)
+			}
+			continue
+		}
 		var rcpt []string
 		seen := map[string]bool{}
 		add := func(id string) {
@@ -147,6 +175,14 @@ func refRoute(cs c14Case) (logs map[string][]string, emitted []string) {
 				case "list":
 					queue = append(queue, refMsg{to: []interface{}{rm.Target, id, rm.Target}, hasTo: true, trail: t + "l", n: m.n - 1})
 					emitted = append(emitted, t+"l")
+				case "spawn":
+					if !spawned[id] {
+						spawned[id] = true
+						queue = append(queue, refMsg{to: "captain", hasTo: true, trail: "<create-x>"})
+						emitted = append(emitted, "<nil>")
+					}
+					queue = append(queue, refMsg{to: "x", hasTo: true, trail: t + "x", n: m.n - 1})
+					emitted = append(emitted, t+"x")
 				}
 			}
 		}
@@ -185,7 +221,7 @@ func c14Exec(cs c14Case) c14Obs {
 		return o
 	}
 	o.logs = map[string][]string{}
-	for _, m := range cs.Crew {
+	for _, m := range append(append([]recMachine{}, cs.Crew...), recMachine{Id: "x"}) {
 		if mm := c.Machines[m.Id]; mm != nil && mm.State != nil {
 			if l, ok := mm.State.Bs["log"].([]interface{}); ok {
 				for _, x := range l {
@@ -208,6 +244,16 @@ func c14Exec(cs c14Case) c14Obs {
 	return o
 }
 
+func onlyGreetings(xs []string) []string {
+	var out []string
+	for _, x := range xs {
+		if strings.HasSuffix(x, "x") {
+			out = append(out, x)
+		}
+	}
+	return out
+}
+
 func multiset(xs []string) string {
 	ys := append([]string{}, xs...)
 	sort.Strings(ys)
@@ -221,8 +267,14 @@ func c14Judge(cs c14Case, o c14Obs) [][2]string {
 		return [][2]string{{"error", o.err}}
 	}
 	wantLogs, wantEmitted := refRoute(cs)
-	for _, m := range cs.Crew {
+	for _, m := range append(append([]recMachine{}, cs.Crew...), recMachine{Id: "x"}) {
 		got, want := o.logs[m.Id], wantLogs[m.Id]
+		if m.Id == "x" {
+			// x is created in mid-cascade: whether a broadcast of the same round reaches it depends on the
+			// (unspecified) order in which that round's machines were served, so only what is addressed
+			// to x by name is compared
+			got, want = onlyGreetings(got), onlyGreetings(want)
+		}
 		if multiset(got) != multiset(want) {
 			kind := "wrong-deliveries"
 			if len(got) > len(want) {
@@ -286,7 +338,7 @@ func toSig(x interface{}) string {
 }
 
 func c14Crews(thorough bool) [][]recMachine {
-	modes := []recMachine{{Mode: "none"}, {Mode: "routed", Target: "a"}, {Mode: "routed", Target: "b"}, {Mode: "unrouted"}, {Mode: "two", Target: "b"}, {Mode: "list", Target: "a"}, {Mode: "routed", Target: "*"}, {Mode: "routed", Target: "zz"}}
+	modes := []recMachine{{Mode: "none"}, {Mode: "routed", Target: "a"}, {Mode: "routed", Target: "b"}, {Mode: "unrouted"}, {Mode: "two", Target: "b"}, {Mode: "list", Target: "a"}, {Mode: "routed", Target: "*"}, {Mode: "routed", Target: "zz"}, {Mode: "spawn"}}
 	var out [][]recMachine
 	ids := []string{"a", "b", ""}
 	for _, ma := range modes {
@@ -320,11 +372,8 @@ func C14sio(c *vh.Ctx) {
 		var first string
 		haveFirst := false
 		reported := map[string]bool{}
-		runs, capped := vexplore.Orders(bound, 400, func() {}, func([]int) {})
-		_ = runs
-		_ = capped
 		var obs c14Obs
-		runs, capped = vexplore.Orders(bound, 400, func() { obs = c14Exec(cs) }, func(choices []int) {
+		runs, capped := vexplore.Orders(bound, 5000, func() { obs = c14Exec(cs) }, func(choices []int) {
 			c.R.Transitions++
 			key := fmt.Sprint(obs.logs, obs.emitted, obs.err)
 			if !haveFirst {
@@ -347,7 +396,7 @@ func C14sio(c *vh.Ctx) {
 		}
 		c.R.Traces += int64(runs)
 		if capped {
-			c.NotExhaustive("order exploration capped at 400 executions for one case")
+			c.NotExhaustive("order exploration capped at 5000 executions for one case")
 		}
 	}
 	if c.Replay != "" {
@@ -364,6 +413,15 @@ func C14sio(c *vh.Ctx) {
 	c.Rule("sio: crews of 1-3 recorder machines (ids a, b, \"\"; each appends every message it receives to a log in its bindings and emits according to its mode {nothing, one routed to X, one unrouted, two (routed+unrouted), one routed to a list with a repeated id}) plus the built-in timers and captain; first message with every routing target {absent, a, b, unknown id, \"*\", lists with unknown / repeated / non-string members, empty list, \"timers\", \"captain\", a number, \"\"} and a non-map message; counter depth up to the bound; every machine-iteration order with at most k deviating map ranges (vrange); oracle: a breadth-first reference router with the documented recipient rule - per machine the multiset of received messages, breadth-first order, every emitted message reported exactly once, emission order kept. states = (crew, target) cases, traces = executions.")
 	var idx uint64
 	for _, cr := range c14Crews(!c.Quick()) {
+		spawners := 0
+		for _, m := range cr {
+			if m.Mode == "spawn" {
+				spawners++
+			}
+		}
+		if spawners > 1 {
+			continue // a second creation of x replaces its state (and with it the receive log): not a routing question
+		}
 		for _, to := range c14Targets {
 			for n := 0; n <= depth; n++ {
 				idx++
